@@ -1,0 +1,13 @@
+//go:build verif
+
+package node
+
+import "gitlab.com/aquachain/aquachain/rpc"
+
+// VerifHandlers returns the per-transport RPC servers of a started node
+// (verification harness only). A nil entry means the transport is not running.
+func (n *Node) VerifHandlers() map[string]*rpc.Server {
+	n.lock.RLock()
+	defer n.lock.RUnlock()
+	return map[string]*rpc.Server{"inproc": n.inprocHandler, "ipc": n.ipcHandler, "http": n.httpHandler, "ws": n.wsHandler}
+}
